@@ -1,4 +1,6 @@
 import TV.Properties.C11
+import TV.Properties.C11c
+import TV.ShapeOK.Stack
 #print axioms TV.C11.C11_refines_fifo
 #print axioms TV.C11.C11_push_ids
 #print axioms TV.C11.C11_heap_push
@@ -7,3 +9,7 @@ import TV.Properties.C11
 #print axioms TV.C11.C11_heap_remove
 #print axioms TV.C11.C11_heap_fix
 #print axioms TV.C11.C11_heap_init
+#print axioms TV.C11c.C11_concurrent_conservation
+#print axioms TV.C11c.pinned_C11_two_pops_panic
+#print axioms TV.ShapeOK.Stack.discipline
+#print axioms TV.ShapeOK.Stack.sections
